@@ -50,7 +50,8 @@ def relations(inv):
                 if any(p[0] is None for p in ps) or plain(ps):
                     continue
                 out.append({'id': '%s(%s)' % (q, ', '.join(p[0] for p in ps)), 'kind': 'ctor', 'args': ps, 'res': (q, n),
-                            'expr': '%s(%s)' % ('RES', ', '.join('a%d' % i for i in range(len(ps)))), 'k': k})
+                            'expr': '%s(%s)' % ('RES', ', '.join('a%d' % i for i in range(len(ps)))), 'k': k,
+                            'implicit': len(ps) == 1 and 'explicit' not in m['quals']})
             elif m['kind'] == 'operator' and m['op'] in ('+', '-', '*', '/') and len(m['params']) == 1:
                 pb = sh.of(m['params'][0]['type'])
                 pr = sh.of(m['ret'])
@@ -136,6 +137,20 @@ def one(ctx, T, d, dims):
     da = [dims[q] for q, n in d['args']]
     dr = dims[d['res'][0]]
     # ground facts about the declared dimension sets
+    if d['kind'] == 'ctor' and len(d['args']) == 1:
+        # a one-argument constructor from another quantity type that is not `explicit` is an implicit conversion: it takes
+        # part in the overload resolution of every operator, so `Energy * Time` would silently mean `Energy * Frequency`
+        # - an undeclared relation whose result dimensions are not the sum of the operands' dimensions
+        g = ctx.ob(d['id'] + ' [explicit]', 'implicit-conversion', 'REAL', '%s: a converting constructor between quantity types of different dimensions is explicit' % d['id'])
+        g.key = g.oid
+        g.syntactic = True
+        if d.get('implicit') and da[0] != dr:
+            g.verdict = 'violated'
+            g.reason = 'the constructor is not explicit: a %s converts silently to a %s although their dimension sets differ (%s vs %s, order T,L,M,I,Theta,N,J)' % (d['args'][0][0], d['res'][0], da[0], dr)
+            g.replay = core.write_replay(PROP, g.oid, {'kind': 'ground', 'property': PROP, 'obligation': g.oid, 'statement': g.desc, 'observed': g.reason,
+                                                      'includes': [], 'wrappers': [], 'impl': None, 'inputs': []})
+        else:
+            g.verdict = 'discharged'
     if d['kind'] == 'op':
         g = ctx.ob(d['id'] + ' [dimension sets]', 'dimension-arithmetic', 'REAL', '%s: the result type\'s dimension set is the %s of the operand types\' sets' % (
             d['id'], {'*': 'sum', '/': 'difference', '+': 'common value', '-': 'common value'}[d['op']]))
